@@ -326,6 +326,38 @@ fn wide_families(thorough: bool) -> Vec<(String, ldpc_toolbox::sparse::SparseMat
             }
         }
     }
+    // many checks: staircase tails with 17..4097 rows (thorough to 16385) and a narrow information part
+    let mut talls = vec![17usize, 65, 257, 1025, 2049, 3000, 4097];
+    if thorough {
+        talls.extend([1024, 2048, 4096, 8193, 16385]);
+    }
+    for &r in &talls {
+        for k in [1usize, 3] {
+            for variant in 0..2usize {
+                let n = r + k;
+                let mut h = SparseMatrix::new(r, n);
+                for i in 0..r {
+                    // information part: sparse (variant 0) or every row touches column 0 (variant 1)
+                    if variant == 1 || i % 5 == 0 || i == r - 1 {
+                        h.insert(i, 0);
+                    }
+                    if k > 1 && (i * 7 + 3) % 11 < 4 {
+                        h.insert(i, 1 + i % (k - 1));
+                    }
+                    h.insert(i, k + i);
+                    if i > 0 {
+                        h.insert(i, k + i - 1);
+                    }
+                }
+                out.push((format!("tall:staircase:v{}:{}x{}", variant, r, n), h.clone()));
+                // one extra tail entry far from the diagonal: not a staircase, still invertible
+                if variant == 0 {
+                    h.insert(r - 1, k);
+                    out.push((format!("tall:near-staircase:{}x{}", r, n), h));
+                }
+            }
+        }
+    }
     out
 }
 
@@ -440,7 +472,7 @@ pub fn run(run: &Run) -> i32 {
         run,
         acc,
         Coverage {
-            rule: "every binary matrix of every listed shape (all masks) plus, for r up to the bound and k<=4, the exact staircase tail with every information part and every single-bit flip of the r x r tail; for each accepted matrix ALL 2^(n-r) messages and all message pairs (linearity); every matrix is additionally built in three scrambled insertion orders, with the messages passed as owned arrays, reversed views (stride -1) and stride-2 views, and must give the same verdict and codewords; for the shapes 2x3, 2x4, 3x4 (thorough 3x5, 2x5) and the (near-)staircase family with r <= 3, k <= 2 (3), EVERY storage order of the entries within the rows (all n! column permutations, rows top-down / bottom-up). Plus deterministic families with many rows (dense invertible and singular tails up to 40 (64) rows) and wide families (2, 3, 8 checks x 65..8193 (65537) columns: staircase, triangular and singular tails, sparse and dense information parts; six messages each). Non-trivial = invertible tail and n > r.".into(),
+            rule: "every binary matrix of every listed shape (all masks) plus, for r up to the bound and k<=4, the exact staircase tail with every information part and every single-bit flip of the r x r tail; for each accepted matrix ALL 2^(n-r) messages and all message pairs (linearity); every matrix is additionally built in three scrambled insertion orders, with the messages passed as owned arrays, reversed views (stride -1) and stride-2 views, and must give the same verdict and codewords; for the shapes 2x3, 2x4, 3x4 (thorough 3x5, 2x5) and the (near-)staircase family with r <= 3, k <= 2 (3), EVERY storage order of the entries within the rows (all n! column permutations, rows top-down / bottom-up). Plus deterministic families with many rows (dense invertible and singular tails up to 40 (64) rows) and wide families (2, 3, 8 checks x 65..8193 (65537) columns: staircase, triangular and singular tails, sparse and dense information parts; six messages each) and tall staircase / near-staircase families with 17..4097 (16385) checks. Non-trivial = invertible tail and n > r.".into(),
             exhaustive: true,
             extra,
             graph: None,
